@@ -66,10 +66,11 @@ def jx(n):
         return ("item", jx(n.node), jx(n.arg))
     if t is nodes.Filter:
         inner = jx(n.node)
+        name = _FILTER_ALIAS.get(n.name, n.name)
         # iterating a dict iterates its keys: `x.element_count | first` is `x.element_count.keys() | first` (canonical form)
-        if n.name in ("first", "last", "list", "length", "join", "sort") and inner[0] == "attr" and inner[2] == "element_count":
+        if name in ("first", "last", "list", "length", "join", "sort") and inner[0] == "attr" and inner[2] == "element_count":
             inner = ("call", ("attr", inner, "keys"), (), ())
-        return ("filter", n.name, inner, tuple(jx(a) for a in n.args),
+        return ("filter", name, inner, tuple(jx(a) for a in n.args),
                 tuple((k.key, jx(k.value)) for k in n.kwargs))
     if t is nodes.Test:
         return ("test", n.name, jx(n.node), tuple(jx(a) for a in n.args))
@@ -78,7 +79,15 @@ def jx(n):
     if t is nodes.Compare:
         return ("cmp", jx(n.expr), tuple((o.op, jx(o.expr)) for o in n.ops))
     if t in BIN:
-        return ("bin", BIN[t], jx(n.left), jx(n.right))
+        l, r = jx(n.left), jx(n.right)
+        # the one-based loop counters minus one are the zero-based ones: loop.index - 1 == loop.index0 (canonical form)
+        if BIN[t] == "-" and r == ("const", 1) and l[0] == "attr" and l[1] == ("name", "loop") and l[2] in ("index", "revindex"):
+            return ("attr", l[1], l[2] + "0")
+        if BIN[t] == "+" and ("const", 1) in (l, r):
+            o = r if l == ("const", 1) else l
+            if o[0] == "attr" and o[1] == ("name", "loop") and o[2] in ("index0", "revindex0"):
+                return ("attr", o[1], o[2][:-1])
+        return ("bin", BIN[t], l, r)
     if t is nodes.Neg:
         return ("neg", jx(n.node))
     if t is nodes.Pos:
@@ -104,6 +113,10 @@ def jx(n):
     if t is nodes.NSRef:
         return ("attr", ("name", n.name), n.attr)
     return ("unknown", t.__name__)
+
+
+# Jinja's built-in aliases of one filter (jinja2.filters.FILTERS maps both names to the same function): one canonical name
+_FILTER_ALIAS = {"count": "length", "d": "default", "e": "escape"}
 
 
 def path(e):
@@ -306,6 +319,32 @@ def elementwise(seq, elt):
             return base, ("filter", seq[3][0][1], inner, tuple(seq[3][1:]), ())
         return seq, elt
     return seq, elt
+
+
+def _join_as_loop(e, line, rel):
+    """`{{ S | map("f", a) | map("g", b) | join }}` prints, for every item x of S in order, `x | f(a) | g(b)` -- the loop
+    `{% for x in S %}{{ x | f(a) | g(b) }}{% endfor %}` written as a filter pipeline; it is returned as that `for` item, so that
+    rules about how a sequence is pasted read both spellings alike.  Only for `join` without a separator or with a
+    whitespace-only one (layout between the items; it is kept as a text item of the body).  None for anything else."""
+    if not (e[0] == "filter" and e[1] == "join" and not e[4] and len(e[3]) <= 1):
+        return None
+    sep = e[3][0] if e[3] else ("const", "")
+    if sep[0] != "const" or not isinstance(sep[1], str) or sep[1].strip():
+        return None
+    var = ("name", f"_joined{line}")
+    base, elt = elementwise(e[2], var)
+    if any(isinstance(x, tuple) and x == var for x in _subterms(base)):
+        return None
+    body = (("out", elt, line, rel),) + ((("text", sep[1], line, rel),) if sep[1] else ())
+    return ("for", var, base, body, (), line, rel, None)
+
+
+def _subterms(e):
+    yield e
+    if isinstance(e, tuple):
+        for x in e:
+            if isinstance(x, tuple):
+                yield from _subterms(x)
 
 
 def scan(tree, items, env, guards=()):
@@ -521,7 +560,9 @@ def _items(tree, body, rel, config, depth) -> list:
                                 inner[p_] = v_.value
                     out.extend(_items(tree, m.body, rel, inner, depth + 1))
                 else:
-                    out.append(("out", jx(c), c.lineno, rel))
+                    e = jx(c)
+                    lp = _join_as_loop(e, c.lineno, rel)
+                    out.append(lp if lp is not None else ("out", e, c.lineno, rel))
         elif t is nodes.If:
             out.extend(_if(tree, n, rel, config, depth))
         elif t is nodes.For:
